@@ -1230,18 +1230,27 @@ def rules(repo=None):
 
 
 EXPLANATION = (
-    "R1: regular-language identities on the folded constants (FILE = DRFFILE | DMDFILE, PROPFILE = DRFPROP | DMDPROP, kinds "
-    "disjoint, no tmp. name accepted, _RE_SUBDIR anchored) and the structural facts that files are kept only after a regex match, "
-    "only in matched sub-directories of directories holding a properties file. R2: the if/elif chains that choose the file and "
-    "properties regexes are executed abstractly for all 16 and 36 flag rows and compared with the oracle 'union of requested kinds "
-    "present'. R3: every list handed to the bisecting slice is sorted after its last modification on every CFG path; reversed() "
-    "only wraps the sliced list. R4: every os.listdir in the listing (sub-directories and the channel directory of a sub-directory path) is inside try/except OSError and every "
-    "constant subscript of a listing-derived list is reached only through a non-emptiness test. R5: the look-back loop scans all "
-    "earlier sub-directories and stops only on a non-empty match list. R6: the per-channel generator is interpreted for "
-    "reverse=False/True over a symbolic ascending list of three sub-directories: the loop visits them ascending resp. exactly "
-    "reversed, every selection expression in the loop (slice arguments, conditions) has the same partially evaluated form for each "
-    "sub-directory in both modes (position counters and the flag folded), and the yielding loop runs over the sliced list resp. its "
-    "exact reverse - reversing changes the order, not the set. R7: the end of the window steps over *every* entry carrying the end time (a loop after bisecting with the 1-tuple probe). R8: under forward fill the start index always steps back one entry and the look-back is taken for a first file at or after the start (truth tables over the orderings). R9: datetime / timedelta built from regex groups sit in try/except ValueError / OverflowError. R10: in ilsdrf the window bounds are only made timezone-aware and turned into the difference to the epoch - no rounding before the comparison. Does NOT decide the remaining window arithmetic (bisect positions).")
+    'R1: regular-language identities on the folded constants (FILE = DRFFILE | DMDFILE, PROPFILE = DRFPROP | DMDPROP, '
+    'kinds disjoint, no tmp. name accepted, _RE_SUBDIR anchored) and the structural facts that files are kept only after '
+    'a regex match, only in matched sub-directories of directories holding a properties file. R2: the if/elif chains that'
+    ' choose the file and properties regexes are executed abstractly for all 16 and 36 flag rows and compared with the '
+    "oracle 'union of requested kinds present'. R3: every list handed to the bisecting slice is sorted after its last "
+    'modification on every CFG path; reversed() only wraps the sliced list. R4: every os.listdir in the listing (sub-'
+    'directories and the channel directory of a sub-directory path) is inside try/except OSError and every constant '
+    'subscript of a listing-derived list is reached only through a non-emptiness test. R5: the look-back loop scans all '
+    'earlier sub-directories and stops only on a non-empty match list. R6: the per-channel generator is interpreted for '
+    'reverse=False/True over a symbolic ascending list of three sub-directories: the loop visits them ascending resp. '
+    'exactly reversed, every selection expression in the loop (slice arguments, conditions) has the same partially '
+    'evaluated form for each sub-directory in both modes (position counters and the flag folded), and the yielding loop '
+    'runs over the sliced list resp. its exact reverse - reversing changes the order, not the set. R7: the end of the '
+    'window steps over *every* entry carrying the end time (a loop after bisecting with the 1-tuple probe). R8: under '
+    'forward fill the start index always steps back one entry and the look-back is taken for a first file at or after the'
+    ' start (truth tables over the orderings). R9: datetime / timedelta built from regex groups sit in try/except '
+    'ValueError / OverflowError. R10: in ilsdrf the window bounds are only made timezone-aware and turned into the '
+    "difference to the epoch - no rounding before the comparison. R11: the union of sortkey_drf's default regular "
+    'expressions contains the file and the properties grammar (language inclusion); from the OSError handler of the '
+    "selected sub-directory's listing the look-back loop is still reachable within the iteration. Does NOT decide the "
+    'remaining window arithmetic (bisect positions).')
 TECHNIQUE = ('Python ast; regular-language algebra on folded regex constants; abstract execution of flag chains; sortedness typestate over the CFG; guarded-subscript dataflow; order/element interpretation of sequence expressions + partial evaluation of conditions for both values of a flag')
 ASSUMPTIONS = ["os.walk swallows listing errors by default", "Python regex semantics as modelled by vp.rx"]
 FILES = [LD]
